@@ -52,6 +52,134 @@ CLAIMS = {
              "name<->hash/curve/group tables; handshake typestate.",
         technique="wire-layout extraction + value-origin classification into RFC slots, CFG dominance, who-may-write over the whole package",
         note="equality of the peers' big-integer secrets (DH algebra, library) not decided"),
+    "C07": dict(
+        text="Structural decision at both verification sites x every key class in _key_info: either the call site "
+             "compares the algorithm name read from the very signature blob being verified with the negotiated / "
+             "declared algorithm (certificate suffix stripped) and rejects before verifying, or the key class pins "
+             "the name itself; the declared algorithm is vetted against the enabled set; sign side writes the "
+             "algorithm it hashed with. Found the RSA downgrade defect (fixed).",
+        technique="CFG dominance of the verify call by a recognised comparison (value-origin through reaching definitions), per key class via MRO",
+        note="cryptographic strength not decided"),
+    "C08": dict(
+        text="Structural decision with a guard/bound normaliser: in every DH/gex handler (both roles) the peer value "
+             "read from the message reaches pow(v, x, p) only on paths where comparisons established 1 <= v <= p-1 "
+             "(orientation, strictness and p vs p-1 offsets normalised); gex prime bit length in [1024, 8192] before "
+             "x is generated; EC points only through the validating constructor on the engine's curve; X25519 zero "
+             "check in constant time; K/H and key activation only after the checks.",
+        technique="interval facts from comparison tests + edge-dominance on the CFG, all engines from _kex_info via MRO",
+        note="cryptography's point validation trusted"),
+    "C09": dict(
+        text="Structural decision of the six mechanisms behind strict kex: enforce on IGNORE/DEBUG, expected-packet "
+             "dominance of every dispatch with a raising mismatch arm (MessageOrderError when strict), handshake "
+             "typestate (every step re-arms the expectation; who-may-write), KEXINIT seqno==0 test, sequence resets "
+             "on every NEWKEYS in order, both-sides agreement written only in the marker branch.",
+        technique="flag-specialised CFG dominance + who-may-write over the package + per-engine typestate via MRO",
+        note="the end-to-end 'no shifted session' statement also needs MAC security"),
+    "C10": dict(
+        text="Partial, path rules that do not depend on the 2^29 thresholds: counters advance once per packet and are "
+             "compared with >=, a reached threshold triggers a rekey unless one is pending, overflow while pending "
+             "raises, key installation zeroes counters and the pending flag clears only after both directions, loop "
+             "head starts the exchange before every read, NeedRekeyException only from an idle first read, in_kex "
+             "settled before the send gate reopens, compression restarts with the keys.",
+        technique="threshold-specialised CFG walks (comparison outcomes fixed, infeasible edges pruned) + dominance",
+        note="traffic continuity and timing not decided"),
+    "C12": dict(
+        text="Structural decision on Transport.run with every 'is handled' test fixed false: the fallback arm replies "
+             "[byte 3, uint32 m.seqno] with the ungated sender exactly when ptype != UNIMPLEMENTED, is total in the "
+             "peer-controlled ptype (no raise/break, no unguarded subscript keyed by it) so the loop continues for "
+             "all 256 values, and UNIMPLEMENTED is in no dispatch table. Found the MSG_NAMES[ptype] KeyError (fixed).",
+        technique="pruned-CFG region analysis of the dispatch ladder + layout extraction + partial-operation scan",
+        note="_send_message failures are connection loss"),
+    "C14": dict(
+        text="Structural decision: single grant point (who-builds USERAUTH_SUCCESS / who-sets authenticated), result "
+             "origin at every _send_auth_result call (application callback or AUTH_FAILED, never a constant success), "
+             "publickey success only through the true arm of verify_ssh_sig over the RFC 4252 s7 blob built from the "
+             "request's own fields, probe path ends in PK_OK, GSS success claims need a MIC check that returned "
+             "normally, username pin rules shared with C16. Found the discarded GSS callback result (fixed).",
+        technique="value-origin via reaching definitions + path-restricted dominance + layout extraction",
+        note="application callbacks are opaque"),
+    "C15": dict(
+        text="Structural decision: the _ensure_authed result's no-error arm dominates the only _handler_table dispatch; "
+             "with server_mode and not-authenticated fixed the gate returns a refusal object for every transport-table "
+             "type above HIGHEST_USERAUTH_MESSAGE_ID (each evaluated); channels are born at two sites only; every "
+             "application-consulting call sits in a function reachable only via the gated table or a channel handler; "
+             "is_authenticated() shape; server AuthHandler created once.",
+        technique="CFG dominance + per-type specialised walks + who-may-call over the package",
+        note="Message objects are truthy"),
+    "C16": dict(
+        text="Structural decision: service and username guards dominate every application callback and reply with "
+             "disconnect+return on their failing arms, auth_username is pinned there before any callback (single "
+             "writer), the handler object holding pin and counter is created once, disconnect helpers send DISCONNECT "
+             "and close, failures increment the counter exactly once (single incrementing writer, never reset) and "
+             ">= 10 disconnects after the reply.",
+        technique="CFG dominance + who-may-write + normalised comparison",
+        note="Transport.close() deactivation checked structurally"),
+    "C17": dict(
+        text="Structural decision: every auth entry point reaches an AuthHandler only under active && initial_kex_done "
+             "(single writer of that flag: NEWKEYS handler), Transport.connect compares the given host key (name and "
+             "bytes) with a raising arm before any auth call, SSHClient.connect passes the missing-host-key policy or "
+             "the known-key comparison (BadHostKeyException) on every path from start_client to authentication; "
+             "RejectPolicy always raises and is the default.",
+        technique="role/flag-specialised CFG dominance + who-may-write",
+        note="what is physically on the wire is C01-C04"),
+    "C18": dict(
+        text="Structural decision by fixing the role flag: client-mode global requests touch no application object and "
+             "can only be refused (path-sensitive on the local `ok`), client-mode channel opens construct a channel "
+             "only behind the three (kind, handler-not-None) gates (path-sensitive on `reject`), the handlers have "
+             "exactly the enabling writers, and channel requests without a server object approve only exit-status/"
+             "xon-xoff with every application call under `server is not None`.",
+        technique="flag-pruned CFG + path-sensitive constant tracking of boolean locals + who-may-write",
+        note=""),
+    "C19": dict(
+        text="Structural decision + bound normalisation: single producer of data messages with payload s[:size] from "
+             "_wait_for_send_window; on every path to the window charge the size was clamped to out_window_size and to "
+             "out_max_packet_size-64 and is the value returned; credit writers are exactly three, two under "
+             "Channel.lock with every caller of the caller-holds-lock function holding it; packet size lower-clamped "
+             "at 4096; every WINDOW_ADJUST amount is _check_add_window(len(bytes consumed)); advertised = tracked.",
+        technique="clamp recognition via interval facts + lock-region dataflow (must-held locksets) + who-may-write",
+        note="scheduling of adjusts is C20"),
+    "C20": dict(
+        text="Partial: every received payload is buffered or credited at once on all paths of _feed/_feed_extended; the "
+             "adjust threshold is a proper fraction of the advertised window with a non-strict test; crediting is "
+             "suppressed only when closed/EOF-received/inactive; combine re-feeds the backlog; adjusts and close wake "
+             "all senders. Found the uncredited discarded extended data (fixed). Eventual progress itself not decided.",
+        technique="must-pass-through on the CFG from the payload read + expression-shape check + lock regions",
+        note="liveness of two threads and a peer not decided"),
+    "C21": dict(
+        text="Partial (routing only): dispatch table for the eight channel types, channel chosen by the first uint32, "
+             "every channel message built in channel.py addressed [type, remote_chanid], stdout/stderr type and code "
+             "agreement writer<->reader<->buffer, exit-status writer/reader/getter, combine flag switched before the "
+             "backlog is drained in one critical section.",
+        technique="table folding + wire-layout extraction over all Channel methods + flag-pruned CFG + lock regions",
+        note="content equality and cross-thread order not decided"),
+    "C22": dict(
+        text="Structural decision: single producers of EOF/CLOSE addressed to the peer's id, test-and-set under the lock "
+             "with every caller of the caller-holds-lock helpers holding Channel.lock, CLOSE answered and unlinked "
+             "once, state re-tested after every wake-up before a window grant. Two clauses are violated today at six "
+             "sites and are recorded as known findings (message handed to the transport after the lock is released; "
+             "send_exit_status unguarded): any new site is a fresh violation.",
+        technique="lock-region dataflow + who-may-build via layout extraction + edge-dominance from wait nodes",
+        note="known findings keyed by rule:function; repair needs a per-channel send queue"),
+    "C23": dict(
+        text="Structural decision: every _next_channel caller holds Transport.lock, every id used to build/register a "
+             "channel is its result, the returned id is the counter after a loop that exits only on a non-live id, the "
+             "counter is always masked to 24 bits and advanced past the id, ChannelMap is fully locked, and a channel "
+             "leaves the map only by its own close or an OPEN_FAILURE for a still-pending open.",
+        technique="lock-region dataflow + value-origin + who-may-write/call",
+        note="ChannelMap is a WeakValueDictionary: liveness = referenced"),
+    "C25": dict(
+        text="Structural decision (loop-progress rule): _send can return 0 (read from its returns), so both sendall loops "
+             "must raise on a 0 return, advance the cursor by exactly the count returned and exit normally only when "
+             "nothing is left; closed and timeout arms raise. Found the endless loop after shutdown_write (fixed).",
+        technique="loop-progress / cursor-agreement rules on the CFG with an inter-procedural return fact",
+        note="a positive return is bytes handed to the transport (C19)"),
+    "C26": dict(
+        text="Partial: all shared state of BufferedPipe under its lock with release on every exit, paired slices in read "
+             "and empty, feed is the only appender (tail) and notifies all, wait inside the predicate loop, empty "
+             "result only when closed and drained, PipeTimeout only after re-testing emptiness following the wake-up. "
+             "Found the spurious timeout (fixed). FIFO equality over interleavings not decided.",
+        technique="lock-region dataflow + paired-slice rule + edge-dominance from the wait node",
+        note=""),
     "C03": dict(
         text="Exact decision over a finite abstract domain: the framing arithmetic "
              "of Packetizer._build_packet is interpreted from the current AST for every "
